@@ -151,7 +151,8 @@ Print Assumptions html_template_text_clean.
    the lexer, without template delimiters, returns exactly one token per construct
    (one per tag part; raw content as ONE Text token; an svg/math subtree as ONE SVG/Math token), with the right
    type, the bytes of the construct, lower-cased Text()/AttrKey() and verbatim AttrVal(), followed by the
-   end-of-input report.  [observe] reads type, token bytes, Text() and (for attributes) AttrVal() after each call.
+   end-of-input report.  [observe] reads type, token bytes, Text() and (for attributes) AttrVal() after each call; the
+   last conjunct reads HasTemplate() after each call: false (no delimiters are configured; Wf.next_no_tmpl_has).
    Constructs cut by the end of input (only as the last item; WfDoc.ITextLt and the ICut items): text ending with "<" or "</"
    (the '<' belongs to the text); "<!--" body, "<![CDATA[" body, "<!doctype" after: one Comment / Text / Doctype token
    to the end; "<?" / "<!" / "</"+non-letter body: one bogus Comment; "</" name ws: one EndTag; "<" name attributes:
@@ -170,7 +171,8 @@ Print Assumptions html_template_text_clean.
 Theorem html_wellformed_tokens_partial :
   forall items, wf_doc items ->
     exists tr, run no_tmpl (length (doc_obs items) + 1) (new_lexer (doc_bytes items)) = Ok tr /\
-               map observe tr = doc_obs items ++ [mkObs ErrorT [] [] []].
+               map observe tr = doc_obs items ++ [mkObs ErrorT [] [] []] /\
+               Forall (fun r => lhas (snd r) = false) tr.
 Proof. exact html_wellformed_tokens_proof. Qed.
 Print Assumptions html_wellformed_tokens_partial.
 
@@ -185,7 +187,8 @@ Theorem html_wellformed_cut_tag_ws :
     (exists h, to_hash (map lower name) = Ok h /\ is_xml_hash h = false) -> all_ws tws -> wf_attrs attrs tws ->
     let d := doc_bytes items ++ 60 :: name ++ concat (map attr_bytes attrs) ++ tws in
     let os := doc_obs items ++ mkObs StartTagT (60 :: map lower name) (map lower name) [] :: map attr_obs attrs in
-    exists tr, run no_tmpl (length os + 1) (new_lexer d) = Ok tr /\ map observe tr = os ++ [mkObs ErrorT [] [] []].
+    exists tr, run no_tmpl (length os + 1) (new_lexer d) = Ok tr /\ map observe tr = os ++ [mkObs ErrorT [] [] []] /\
+               Forall (fun r => lhas (snd r) = false) tr.
 Proof. exact html_wellformed_cut_ws_proof. Qed.
 Print Assumptions html_wellformed_cut_tag_ws.
 
